@@ -22,6 +22,9 @@ pub mod channel {
         queue: VecDeque<T>,
         senders: usize,
         receivers: usize,
+        /// messages ever enqueued / dequeued (rendezvous channels wait for their hand-over)
+        pushed: u64,
+        taken: u64,
     }
 
     struct Chan<T> {
@@ -50,6 +53,81 @@ pub mod channel {
     pub enum TryRecvError {
         Empty,
         Disconnected,
+    }
+
+    #[derive(PartialEq, Eq, Clone, Copy, Debug)]
+    pub enum RecvTimeoutError {
+        Timeout,
+        Disconnected,
+    }
+
+    #[derive(PartialEq, Eq, Clone, Copy)]
+    pub enum TrySendError<T> {
+        Full(T),
+        Disconnected(T),
+    }
+
+    impl<T> fmt::Debug for TrySendError<T> {
+        fn fmt(&self, f: &mut fmt::Formatter<'_>) -> fmt::Result {
+            match self {
+                TrySendError::Full(_) => "Full(..)".fmt(f),
+                TrySendError::Disconnected(_) => "Disconnected(..)".fmt(f),
+            }
+        }
+    }
+    impl<T> fmt::Display for TrySendError<T> {
+        fn fmt(&self, f: &mut fmt::Formatter<'_>) -> fmt::Result {
+            match self {
+                TrySendError::Full(_) => "sending on a full channel".fmt(f),
+                TrySendError::Disconnected(_) => "sending on a disconnected channel".fmt(f),
+            }
+        }
+    }
+    impl<T: Send> std::error::Error for TrySendError<T> {}
+
+    impl fmt::Display for RecvTimeoutError {
+        fn fmt(&self, f: &mut fmt::Formatter<'_>) -> fmt::Result {
+            match self {
+                RecvTimeoutError::Timeout => "timed out waiting on receive operation".fmt(f),
+                RecvTimeoutError::Disconnected => "channel is empty and disconnected".fmt(f),
+            }
+        }
+    }
+    impl std::error::Error for RecvTimeoutError {}
+
+    pub struct Iter<'a, T> {
+        rx: &'a Receiver<T>,
+    }
+    impl<T> Iterator for Iter<'_, T> {
+        type Item = T;
+        fn next(&mut self) -> Option<T> {
+            self.rx.recv().ok()
+        }
+    }
+    pub struct TryIter<'a, T> {
+        rx: &'a Receiver<T>,
+    }
+    impl<T> Iterator for TryIter<'_, T> {
+        type Item = T;
+        fn next(&mut self) -> Option<T> {
+            self.rx.try_recv().ok()
+        }
+    }
+    pub struct IntoIter<T> {
+        rx: Receiver<T>,
+    }
+    impl<T> Iterator for IntoIter<T> {
+        type Item = T;
+        fn next(&mut self) -> Option<T> {
+            self.rx.recv().ok()
+        }
+    }
+    impl<T> IntoIterator for Receiver<T> {
+        type Item = T;
+        type IntoIter = IntoIter<T>;
+        fn into_iter(self) -> IntoIter<T> {
+            IntoIter { rx: self }
+        }
     }
 
     impl<T> fmt::Debug for SendError<T> {
@@ -100,6 +178,8 @@ pub mod channel {
                 queue: VecDeque::new(),
                 senders: 1,
                 receivers: 1,
+                pushed: 0,
+                taken: 0,
             }),
             not_empty: Condvar::new(),
             not_full: Condvar::new(),
@@ -114,7 +194,6 @@ pub mod channel {
 
     #[track_caller]
     pub fn bounded<T>(cap: usize) -> (Sender<T>, Receiver<T>) {
-        assert!(cap >= 1, "zero-capacity (rendezvous) channels are not modelled");
         make(Some(cap))
     }
 
@@ -132,7 +211,7 @@ pub mod channel {
                     return Err(SendError(msg));
                 }
                 match c.cap {
-                    Some(cap) if st.queue.len() >= cap => {
+                    Some(cap) if cap > 0 && st.queue.len() >= cap => {
                         if !blocked {
                             blocked = true;
                             log::record(Kind::SendBlocked, c.id, loc.file(), loc.line());
@@ -143,10 +222,52 @@ pub mod channel {
                 }
             }
             st.queue.push_back(msg);
+            st.pushed += 1;
+            let my = st.pushed;
+            log::record(Kind::Send, c.id, loc.file(), loc.line());
+            if c.cap == Some(0) {
+                // rendezvous: the send completes when a receiver has taken the message
+                c.not_empty.notify_one();
+                while st.taken < my && st.receivers > 0 {
+                    st = c.not_full.wait(st).unwrap();
+                }
+                return Ok(());
+            }
+            drop(st);
+            c.not_empty.notify_one();
+            Ok(())
+        }
+
+        #[track_caller]
+        pub fn try_send(&self, msg: T) -> Result<(), TrySendError<T>> {
+            let loc = Location::caller();
+            let c = &*self.chan;
+            let mut st = c.state.lock().unwrap();
+            if st.receivers == 0 {
+                return Err(TrySendError::Disconnected(msg));
+            }
+            if let Some(cap) = c.cap {
+                if st.queue.len() >= cap.max(1) || cap == 0 {
+                    return Err(TrySendError::Full(msg));
+                }
+            }
+            st.queue.push_back(msg);
+            st.pushed += 1;
             log::record(Kind::Send, c.id, loc.file(), loc.line());
             drop(st);
             c.not_empty.notify_one();
             Ok(())
+        }
+
+        pub fn is_full(&self) -> bool {
+            match self.chan.cap {
+                Some(cap) => self.chan.state.lock().unwrap().queue.len() >= cap,
+                None => false,
+            }
+        }
+
+        pub fn capacity(&self) -> Option<usize> {
+            self.chan.cap
         }
 
         pub fn is_empty(&self) -> bool {
@@ -167,9 +288,10 @@ pub mod channel {
             let mut blocked = false;
             loop {
                 if let Some(v) = st.queue.pop_front() {
+                    st.taken += 1;
                     log::record(Kind::Recv, c.id, loc.file(), loc.line());
                     drop(st);
-                    c.not_full.notify_one();
+                    c.not_full.notify_all();
                     return Ok(v);
                 }
                 if st.senders == 0 {
@@ -191,9 +313,10 @@ pub mod channel {
             let c = &*self.chan;
             let mut st = c.state.lock().unwrap();
             if let Some(v) = st.queue.pop_front() {
+                st.taken += 1;
                 log::record(Kind::Recv, c.id, loc.file(), loc.line());
                 drop(st);
-                c.not_full.notify_one();
+                c.not_full.notify_all();
                 return Ok(v);
             }
             if st.senders == 0 {
@@ -201,6 +324,34 @@ pub mod channel {
             } else {
                 Err(TryRecvError::Empty)
             }
+        }
+
+        /// There is no clock in the simulation: a timed receive returns what is there,
+        /// or reports a timeout after giving every other task a chance to run.
+        #[track_caller]
+        pub fn recv_timeout(&self, _d: std::time::Duration) -> Result<T, RecvTimeoutError> {
+            match self.try_recv() {
+                Ok(v) => Ok(v),
+                Err(TryRecvError::Disconnected) => Err(RecvTimeoutError::Disconnected),
+                Err(TryRecvError::Empty) => {
+                    similari_verif_rt::thread::yield_now();
+                    match self.try_recv() {
+                        Ok(v) => Ok(v),
+                        Err(TryRecvError::Disconnected) => Err(RecvTimeoutError::Disconnected),
+                        Err(TryRecvError::Empty) => Err(RecvTimeoutError::Timeout),
+                    }
+                }
+            }
+        }
+
+        /// blocking iterator: ends when the channel is empty and disconnected
+        pub fn iter(&self) -> Iter<'_, T> {
+            Iter { rx: self }
+        }
+
+        /// non-blocking iterator over what is queued right now
+        pub fn try_iter(&self) -> TryIter<'_, T> {
+            TryIter { rx: self }
         }
 
         pub fn is_empty(&self) -> bool {
